@@ -40,12 +40,12 @@ RULE = ("random scripts (3-12 mutating calls quick / 3-16 thorough, each followe
         "empty, the two default graphs; non-trivial = at some point two graphs held a common triple or a restricted "
         "query hit an empty/unknown graph while another graph matched, and at least one removal happened; "
         "distinct = distinct scripts")
-ASSUMPTIONS = ["the Memory model the layer is composed with is C01's (lean/RV/C01/Model.lean, imported, proved there to "
+ASSUMPTIONS = ["the Memory model the layer is composed with is C01's (lean/RV/C01/NModel.lean + Model.lean, the nested-dictionary model NMem, imported, proved there to "
                "represent a set of (triple, graph) pairs plus a set of registered graphs; composed here by conc_refines_abstract)",
                "graph(None): the name BNode().skolemize() returns is fresh (uuid-based); the harness checks it on every call",
                "parse, serialisation and pickling are outside the model"]
 TRUSTED = ["harness/c02.py generators, interpreter and canonicalisation", "lean/RV/C02/Drive.lean line protocol",
-           "lean/RV/C01/Model.lean as a model of memory.py (C01's own correspondence check; here every line of every script "
+           "lean/RV/C01/NModel.lean (+ the context bookkeeping of Model.lean) as a model of memory.py (C01's own correspondence check; here every line of every script "
            "is answered by the Dataset layer composed with that model and compared with rdflib)"]
 
 SUBJ = {1: URIRef("http://e/s1"), 2: BNode("s2"), 3: URIRef("http://e/s3")}
